@@ -6,16 +6,16 @@
    in /repo changes Gen/C02.v and breaks the lemma (=> the check reports a
    broken tie and searches for a failing input). *)
 From Coq Require Import String Ascii.
-From Sdns Require Import Common.Base Gen.C02 C02.Model.
+From Sdns Require Import Common.Base Common.GoList Gen.C02 C02.Model.
 Open Scope N_scope.
 
 Definition src (l : list string) : list (list N) := map bytes_of_string l.
 
-(* aggressiveNODATAType: every excluded identifier is known, and the set is the meta/query types *)
-Lemma gen_nodata_excluded_known : forallb (fun nm => type_code nm <? 65536) nodata_excluded_names = true.
-Proof. vm_compute. reflexivity. Qed.
-Lemma gen_nodata_excluded : nodata_excluded = [0; 41; 249; 250; 251; 252; 253; 254; 255].
-Proof. vm_compute. reflexivity. Qed.
+(* aggressiveNODATAType (translated function, used directly by the model): exactly the meta/query types
+   NONE, OPT, TKEY, TSIG, IXFR, AXFR, MAILB, MAILA, ANY are refused *)
+Lemma gen_aggressive_nodata_type t :
+  aggressive_nodata_type t = negb (existsb (N.eqb t) [0; 41; 249; 250; 251; 252; 253; 254; 255]).
+Proof. unfold aggressive_nodata_type, go_aggressiveNODATAType. cbn [existsb]. repeat (destruct (N.eqb t _)); reflexivity. Qed.
 
 (* aggressiveDelegationBitmap = deleg_bitmap: NS set and SOA clear *)
 Lemma gen_deleg_bitmap_src :
@@ -102,3 +102,114 @@ Lemma gen_authority_admission_src :
     "negative.Aggressive &&"; "negative.Proof != nil {";
     "if negative.Proof.Rcode == dns.RcodeNameError {"]%string.
 Proof. vm_compute. reflexivity. Qed.
+
+(* ---- dnsname.compareDecodedFold (within-label order of CanonicalCompare), translated by srcgen stage 3
+   together with decodeOctet / isDigit: the generated loop IS Model.lcmp on the folded octets that the
+   generated decodeOctet decodes from the two presentation labels.  Fuel: more than either length. *)
+Section CompareDecodedFold.
+Local Open Scope Z_scope.
+(* ---- compareDecodedFold = lcmp on the folded decoded octets *)
+Definition cmp_z (c : comparison) : Z := match c with Lt => -1 | Eq => 0 | Gt => 1 end.
+
+Lemma upper_fold b : (65 <=? b)%N && (b <=? 90)%N = true -> N.lor b 32 = (b + 32)%N.
+Proof.
+  intros H. apply andb_true_iff in H. destruct H as [H1 H2]. apply N.leb_le in H1, H2.
+  assert (Hin : In (N.to_nat b) (seq 65 26)) by (apply in_seq; lia).
+  assert (Hall : forallb (fun n => N.lor (N.of_nat n) 32 =? N.of_nat n + 32)%N (seq 65 26) = true) by (vm_compute; reflexivity).
+  rewrite forallb_forall in Hall. specialize (Hall _ Hin). rewrite N2Nat.id in Hall. apply N.eqb_eq, Hall.
+Qed.
+(* the loop's folding step is Model.fold_byte *)
+Lemma go_fold b : (if (65 <=? b)%N && (b <=? 90)%N then N.lor b 32 else b) = fold_byte b.
+Proof. unfold fold_byte. destruct ((65 <=? b)%N && (b <=? 90)%N) eqn:E; [apply upper_fold, E | reflexivity]. Qed.
+
+(* the octets a presentation label decodes to, by the generated decodeOctet itself *)
+Fixpoint decode_from (n : nat) (s : list N) (i : Z) : list N :=
+  match n with
+  | O => []
+  | S n' => if i <? go_len s then let '(o, i') := go_decodeOctet s i in o :: decode_from n' s i' else []
+  end.
+
+Lemma decode_octet_advances s i : i + 1 <= snd (go_decodeOctet s i).
+Proof. unfold go_decodeOctet. repeat (match goal with |- context [if ?c then _ else _] => destruct c end); cbn; lia. Qed.
+
+
+Definition cdf_result (x : go_ctl Z * (list N * list N * Z * Z)) : option Z :=
+  match x with
+  | (GoRet r, _) => Some r
+  | (GoOof, _) => None
+  | (GoNext, (a, b, i, j)) => Some (if i <? go_len a then 1 else if j <? go_len b then -1 else 0)
+  end.
+
+Lemma cdf_loop fuel : forall lf a b i j,
+  (Z.to_nat (Z.min (go_len a - i) (go_len b - j)) < lf)%nat ->
+  cdf_result (go_compareDecodedFold_loop1 fuel lf a b i j) =
+  Some (cmp_z (lex N.compare (fold_label (decode_from lf a i)) (fold_label (decode_from lf b j)))).
+Proof.
+  induction lf as [|lf IH]; intros a b i j Hf; [lia|].
+  cbn [go_compareDecodedFold_loop1 decode_from].
+  destruct (i <? go_len a) eqn:Ei; destruct (j <? go_len b) eqn:Ej; cbn [andb].
+  2-4: (destruct (go_decodeOctet a i); destruct (go_decodeOctet b j); cbn; rewrite ?Ei, ?Ej; reflexivity).
+  pose proof (decode_octet_advances a i) as Ha. pose proof (decode_octet_advances b j) as Hb.
+  destruct (go_decodeOctet a i) as [oa i2]. destruct (go_decodeOctet b j) as [ob j2]. cbn [snd] in Ha, Hb.
+  apply Z.ltb_lt in Ei, Ej.
+  assert (Hrec : cdf_result (go_compareDecodedFold_loop1 fuel lf a b i2 j2) =
+                 Some (cmp_z (lex N.compare (fold_label (decode_from lf a i2)) (fold_label (decode_from lf b j2)))))
+    by (apply IH; lia).
+  cbn [fold_label map lex]. rewrite <- (go_fold oa), <- (go_fold ob).
+  destruct ((65 <=? oa)%N && (oa <=? 90)%N); destruct ((65 <=? ob)%N && (ob <=? 90)%N);
+    match goal with |- context [N.compare ?x ?y] =>
+      destruct (N.compare_spec x y) as [He|He|He];
+      [ rewrite He, N.ltb_irrefl; exact Hrec
+      | assert (E1 : (x <? y)%N = true) by (apply N.ltb_lt; exact He); rewrite E1; reflexivity
+      | assert (E1 : (x <? y)%N = false) by (apply N.ltb_ge; lia);
+        assert (E2 : (y <? x)%N = true) by (apply N.ltb_lt; exact He); rewrite E1, E2; reflexivity ]
+    end.
+Qed.
+
+Theorem gen_compare_decoded_fold fuel a b :
+  (length a < fuel)%nat -> (length b < fuel)%nat ->
+  go_compareDecodedFold fuel a b =
+  Some (cmp_z (lcmp (fold_label (decode_from fuel a 0)) (fold_label (decode_from fuel b 0)))).
+Proof.
+  intros Ha Hb. unfold go_compareDecodedFold, lcmp. rewrite <- (cdf_loop fuel fuel a b 0 0) by (unfold go_len; lia).
+  unfold cdf_result. destruct (go_compareDecodedFold_loop1 fuel fuel a b 0 0) as [c [[[a' b'] i'] j']]; destruct c; try reflexivity.
+  destruct (i' <? go_len a'); [reflexivity|]. destruct (j' <? go_len b'); reflexivity.
+Qed.
+
+(* what decodeOctet decodes: a plain octet; `\c`; `\DDD` in byte arithmetic *)
+Lemma go_idx_app_r {A} (d : A) p s k : 0 <= k -> go_idx d (p ++ s) (go_len p + k) = go_idx d s k.
+Proof.
+  intros Hk. rewrite !go_idx_nth by (unfold go_len; lia). unfold go_len.
+  replace (Z.to_nat (Z.of_nat (length p) + k)) with (length p + Z.to_nat k)%nat by lia. apply app_nth2_plus.
+Qed.
+Lemma decode_plain p c r : c <> 92%N -> go_decodeOctet (p ++ c :: r) (go_len p) = (c, go_len p + 1).
+Proof.
+  intros Hc. assert (E : go_idx 0%N (p ++ c :: r) (go_len p) = c).
+  { replace (go_len p) with (go_len p + 0) by lia. rewrite go_idx_app_r by lia. apply go_idx_0. }
+  unfold go_decodeOctet. cbv zeta. rewrite E. apply N.eqb_neq in Hc. rewrite Hc. reflexivity.
+Qed.
+Lemma decode_plain_all s : ~ In 92%N s -> forall p n, (length s <= n)%nat -> decode_from n (p ++ s) (go_len p) = s.
+Proof.
+  induction s as [|c r IH]; intros Hn p n Hl.
+  - destruct n; cbn; [reflexivity|]. rewrite app_nil_r, Z.ltb_irrefl. reflexivity.
+  - destruct n; [cbn in Hl; lia|]. cbn [decode_from]. rewrite go_len_app, go_len_cons.
+    assert (E : (go_len p <? go_len p + (1 + go_len r)) = true) by (apply Z.ltb_lt; pose proof (go_len_nonneg r); lia).
+    rewrite E, decode_plain by (intros ->; apply Hn; left; reflexivity). f_equal.
+    replace (p ++ c :: r) with ((p ++ [c]) ++ r) by (rewrite <- app_assoc; reflexivity).
+    replace (go_len p + 1) with (go_len (p ++ [c])) by (rewrite go_len_app; reflexivity).
+    apply IH; [intros H; apply Hn; right; exact H | cbn in Hl; lia].
+Qed.
+(* on labels without a backslash the Go comparison is Model.lcmp of the folded labels *)
+Corollary gen_compare_decoded_fold_plain fuel a b :
+  ~ In 92%N a -> ~ In 92%N b -> (length a < fuel)%nat -> (length b < fuel)%nat ->
+  go_compareDecodedFold fuel a b = Some (cmp_z (lcmp (fold_label a) (fold_label b))).
+Proof.
+  intros Ha Hb La Lb. rewrite gen_compare_decoded_fold by assumption.
+  pose proof (decode_plain_all a Ha [] fuel) as Da. pose proof (decode_plain_all b Hb [] fuel) as Db.
+  cbn in Da, Db. rewrite Da, Db by lia. reflexivity.
+Qed.
+Example decode_escapes :
+  decode_from 9 [92; 46; 97; 92; 48; 52; 54; 92; 92]%N 0 = [46; 97; 46; 92]%N /\       (* \.a\046\\ *)
+  decode_from 4 [92; 50; 53; 54]%N 0 = [0]%N.                                        (* \256 wraps, as in the library *)
+Proof. split; vm_compute; reflexivity. Qed.
+End CompareDecodedFold.
